@@ -291,6 +291,16 @@ func (fs *filesystem) Mount(ctx context.Context, mountpoint string, labels map[s
 	}
 	defer func() {
 		if retErr != nil {
+			// Don't leave a mountpoint that was never mounted registered with a released layer.
+			fs.layerMu.Lock()
+			registered := fs.layer[mountpoint] == l
+			if registered {
+				delete(fs.layer, mountpoint)
+			}
+			fs.layerMu.Unlock()
+			if registered {
+				fs.metricsController.Remove(mountpoint)
+			}
 			l.Done() // don't use this layer.
 		}
 	}()
